@@ -2,3 +2,4 @@ import SakuraVerif.Props.C01
 import SakuraVerif.Props.C02
 import SakuraVerif.Props.C20
 import SakuraVerif.Gen.Tables
+import SakuraVerif.Props.C04
